@@ -46,6 +46,11 @@ pub struct DictProgram {
 pub fn gen_dict_program(t: &mut Tape) -> DictProgram {
     let mut src = String::new();
     let mut features: Vec<&'static str> = Vec::new();
+    // every top-level statement a paragraph of its own (many top-level blocks)
+    let paragraphs = t.chance(1, 6);
+    if paragraphs {
+        features.push("many top-level blocks");
+    }
     let narr = 1 + t.weighted(&[4, 3, 1]);
     let mut nkeys_of = vec![0usize; narr];
     let mut all_str = vec![true; narr];
@@ -311,10 +316,18 @@ pub fn gen_dict_program(t: &mut Tape) -> DictProgram {
             17 => src.push_str("Say Twice taking 1, 2, 3, 4\n"),
             _ => {
                 features.push("undefined name error");
-                src.push_str("Put 1 into One\nPut 2 into Two\nPut 3 into Three\nSay Phantom\n");
+                match t.draw(3) {
+                    0 => src.push_str("Put 1 into One\nPut 2 into Two\nPut 3 into Three\nSay Phantom\n"),
+                    // a misspelt name with several equally similar known names
+                    1 => src.push_str("Put 1 into Cat\nPut 2 into Bat\nPut 3 into Hat\nPut 4 into Rat\nSay Mat\n"),
+                    _ => src.push_str("Put 1 into the heart\nPut 2 into your heart\nPut 3 into our heart\nSay my heart\n"),
+                }
             }
         }
         t.element(op_start, nops_at);
+    }
+    if paragraphs {
+        src = one_statement_per_paragraph(&src);
     }
     if t.chance(1, 12) {
         features.push("parse error");
@@ -332,6 +345,29 @@ pub fn gen_dict_program(t: &mut Tape) -> DictProgram {
         input,
         features,
     }
+}
+
+/// Puts a blank line after every top-level statement (functions and if/else
+/// blocks, which are closed by a blank line already, stay whole).
+fn one_statement_per_paragraph(src: &str) -> String {
+    let mut out = String::with_capacity(src.len() * 2);
+    let mut inside = false; // inside a function or if block (until its blank line)
+    for line in src.split_inclusive('\n') {
+        let l = line.trim_end();
+        out.push_str(line);
+        if l.is_empty() {
+            inside = false;
+            continue;
+        }
+        let lower = l.to_lowercase();
+        if lower.starts_with("if ") || lower.contains(" takes ") {
+            inside = true;
+        }
+        if !inside {
+            out.push('\n');
+        }
+    }
+    out
 }
 
 /// A text with the same layout as `src` (same length, words at the same
